@@ -2,7 +2,7 @@ SPECIFICATION Spec
 CONSTANTS MaxLen = 4
           MaxPolls = 3
           Wide = FALSE
-          Fixes = {}
+          Fixes = {"D2", "D3"}
 INVARIANT Total
 INVARIANT ExecBound
 INVARIANT StoreBounded
